@@ -390,3 +390,138 @@ pub fn s2_from_utf8_body() {
     }
 }
 sh!(s2_from_utf8, 14, s2_from_utf8_body());
+
+/// String::push of a character of CONCRETE width W (the character itself is symbolic for
+/// W = 1, a fixed representative per width otherwise: with a symbolic multi-byte char the
+/// encoded slice has a symbolic length and `Extend` explores the reallocation path — timeout).
+/// Capacity is exactly N + W + SPARE: with SPARE = 0 the push must not move or regrow the
+/// buffer ("a String with reserved capacity accepts that many bytes without moving", C18).
+pub fn s1_pushw<const N: usize, const W: usize, const SPARE: usize>() {
+    let mut back = Backing::<304>([0u8; 304]);
+    unsafe {
+        let c = small_chunk::<1>(back.0.as_mut_ptr(), 256, 200);
+        let bump = mk_bump::<1>(c.footer, None);
+        let raw: [u8; 4] = kani::any();
+        let n: usize = N;
+        let mut b = [0u8; 5];
+        let mut k = 0;
+        while k < 4 {
+            b[k] = raw[k];
+            k += 1;
+        }
+        kani::assume(spec_valid(&b, n));
+        let mut s = BString::with_capacity_in(N + W + SPARE, &bump);
+        {
+            let v = s.as_mut_vec();
+            k = 0;
+            while k < n {
+                v.push(b[k]);
+                k += 1;
+            }
+        }
+        let p0 = s.as_ptr() as usize;
+        let cap0 = s.capacity();
+        vassert!(cap0 == N + W + SPARE, "NEVER: [C18] with_capacity_in did not reserve exactly the requested capacity");
+        let ch: char = match W {
+            1 => {
+                let a: u8 = kani::any();
+                kani::assume(a < 0x80);
+                a as char
+            }
+            2 => '\u{e9}',
+            3 => '\u{20ac}',
+            _ => '\u{1d11e}',
+        };
+        let mut cb = [0u8; 4];
+        let cl = ch.encode_utf8(&mut cb).len();
+        s.push(ch);
+        vassert!(s.len() == N + W, "NEVER: [C14] push: length differs from the reference model");
+        let q: usize = kani::any();
+        if q < N {
+            vassert!(s.as_bytes()[q] == b[q], "NEVER: [C14] push changed the existing text");
+        } else if q < N + W {
+            vassert!(s.as_bytes()[q] == cb[q - N], "NEVER: [C14] push appended different bytes than the char's UTF-8 encoding");
+        }
+        vassert!(cl == W, "NEVER: harness: representative char has the wrong width");
+        vassert!(s.as_ptr() as usize == p0, "NEVER: [C18] push moved a String that had the capacity reserved");
+        vassert!(s.capacity() == cap0, "NEVER: [C18] push regrew a String that had the capacity reserved");
+        kani::cover!(true, "REACH: end of harness");
+    }
+}
+sh!(s1_pushw_n2_w1, 14, s1_pushw::<2, 1, 0>());
+sh!(s1_pushw_n2_w2, 14, s1_pushw::<2, 2, 0>());
+sh!(s1_pushw_n3_w3, 14, s1_pushw::<3, 3, 0>());
+sh!(s1_pushw_n4_w4, 14, s1_pushw::<4, 4, 0>());
+sh!(s1_pushw_n0_w4, 14, s1_pushw::<0, 4, 0>());
+sh!(s1_pushw_n2_w2_s3, 14, s1_pushw::<2, 2, 3>());
+
+/// String::replace_range with a CONCRETE range and replacement length; the text is any valid
+/// UTF-8 of N bytes (contents symbolic, so the concrete range ends fall on or off character
+/// boundaries depending on the text). `Vec::splice` with symbolic shapes is out of reach; these
+/// shapes decide the bound arithmetic (inclusive/exclusive ends), the boundary checks and the
+/// tail move for the instances listed. WANT_PANIC selects texts for which the range is illegal.
+pub fn s1_replw<const N: usize, const I: usize, const J: usize, const INCL: bool, const RL: usize, const WANT_PANIC: bool>() {
+    let mut back = Backing::<304>([0u8; 304]);
+    unsafe {
+        // finger 16 above the chunk start: after the 12-byte buffer (rounded to MIN_ALIGN 1) only 4 bytes
+        // remain, so the reallocation path of `Drain::move_tail`'s `reserve` (never needed with
+        // capacity 12) ends in the cut allocator stub instead of being explored with symbolic copies
+        let c = small_chunk::<1>(back.0.as_mut_ptr(), 256, 16);
+        let bump = mk_bump::<1>(c.footer, None);
+        let raw: [u8; 4] = kani::any();
+        let mut b = [0u8; 5];
+        let mut k = 0;
+        while k < 4 {
+            b[k] = raw[k];
+            k += 1;
+        }
+        kani::assume(spec_valid(&b, N));
+        let e = if INCL { J + 1 } else { J };
+        let legal = I <= e && e <= N && is_boundary(&b, N, I) && is_boundary(&b, N, e);
+        if WANT_PANIC {
+            kani::assume(!legal);
+        } else {
+            kani::assume(legal);
+        }
+        let mut s = BString::with_capacity_in(12, &bump);
+        {
+            let v = s.as_mut_vec();
+            k = 0;
+            while k < N {
+                v.push(b[k]);
+                k += 1;
+            }
+        }
+        let rep: [u8; 3] = kani::any();
+        kani::assume(rep[0] < 0x80 && rep[1] < 0x80 && rep[2] < 0x80);
+        let t = core::str::from_utf8_unchecked(&rep[..RL]);
+        if INCL {
+            s.replace_range(I..=J, t);
+        } else {
+            s.replace_range(I..J, t);
+        }
+        if WANT_PANIC {
+            kani::cover!(true, "NEVER: [C14] replace_range returned normally for a non-boundary or out-of-range range (std panics)");
+        } else {
+            let want = N - (e - I) + RL;
+            vassert!(s.len() == want, "NEVER: [C14] replace_range: length differs from std's");
+            let q: usize = kani::any();
+            if q < I {
+                vassert!(s.as_bytes()[q] == b[q], "NEVER: [C14] replace_range changed text before the range");
+            } else if q < I + RL {
+                vassert!(s.as_bytes()[q] == rep[q - I], "NEVER: [C14] replace_range: replacement text differs");
+            } else if q < want {
+                vassert!(s.as_bytes()[q] == b[q - RL + (e - I)], "NEVER: [C14] replace_range: text after the range differs");
+            }
+            kani::cover!(b[0] >= 0xC2, "INFO: text starts with a multi-byte character");
+            kani::cover!(true, "REACH: end of harness");
+        }
+    }
+}
+// Only ranges that reach the END of the text are registered: with a non-empty tail
+// (Drain::move_tail + fill) every instance tried ran past 10-25 min, like the Vec::splice ones.
+sh!(s1_replw_incl_end, 14, s1_replw::<4, 2, 3, true, 1, false>());
+sh!(s1_replw_excl_end, 14, s1_replw::<4, 2, 4, false, 2, false>());
+sh!(s1_replw_all, 14, s1_replw::<3, 0, 3, false, 1, false>());
+sh!(s1p_replw_incl_oob, 14, s1_replw::<3, 1, 3, true, 1, true>());
+sh!(s1p_replw_excl_start, 14, s1_replw::<3, 1, 3, false, 1, true>());
